@@ -8,7 +8,7 @@
                              first start 0, starts ascending, last start + last size = end − start, thick range
                              inside [start,end] or the `0 0` no-thick convention) and gives back exactly blocks / strand / name / chrom / score /
                              colour / coding bounds in the coordinate system with origin `w.off`
-    Model.Bed.txCore / featCore   mirror of `to_bed12` (`repaired = false`: the code as it is)
+    Model.Bed.txCore / featCore   mirror of `to_bed12` (`repaired = true`: the code as it is, after /repo commit f0d82c2)
   Every theorem quantifies over ALL intervals of the domain `wf`: any number of non-empty ascending
   non-overlapping blocks (0-bp gaps included), any strand, coding or not (CDS inside the exon bounds — what the
   constructor enforces, see `constructor_gives_domain`), any parent window containing the interval, any
@@ -44,64 +44,48 @@ theorem verdict_meaning (w : Want) (line : List Char) (h : okBed12 w (some line)
     obtain ⟨⟨⟨⟨⟨⟨⟨⟨⟨⟨⟨⟨⟨⟨⟨i1, i2⟩, i3⟩, i4⟩, i5⟩, _⟩, i7⟩, i8⟩, i9⟩, c1⟩, c2⟩, _⟩, _⟩, c5⟩, c6⟩, c7⟩ := h
     exact ⟨r, rfl, i1, i2, i3, i4, i5, i7, i8, i9, c6, c5, c2, c1, c7⟩
 
-/-- T1 (transcripts, chromosome coordinates): the code as it is meets C14 on every interval of the domain. -/
+/-- T1 (transcripts, chromosome coordinates): the code meets C14 on every interval of the domain. -/
 theorem tx_chromosome_mode (x : Iv) (score : Nat) (rgb : Nat × Nat × Nat) (sel : NameSel)
     (hwf : wf x = true) (ht1 : '\t' ∉ optStr x.seqName) (ht2 : '\t' ∉ optStr (selName x sel)) :
     ∃ b, txToBed12 x score rgb sel true = some b ∧
          okBed12 (wantOf x score rgb sel true) (some b.str) = true :=
-  txCore_ok false true x score rgb sel hwf ht1 ht2 (Or.inr (Or.inl rfl))
+  txCore_ok true true x score rgb sel hwf ht1 ht2 (Or.inl rfl)
 
 /-- T1 (features, chromosome coordinates) -/
 theorem feat_chromosome_mode (x : Iv) (score : Nat) (rgb : Nat × Nat × Nat) (sel : NameSel)
     (hwf : wf x = true) (hc : x.cds = none) (ht1 : '\t' ∉ optStr x.seqName) (ht2 : '\t' ∉ optStr (selName x sel)) :
     ∃ b, featToBed12 x score rgb sel true = some b ∧
          okBed12 (wantOf x score rgb sel true) (some b.str) = true := by
-  unfold featToBed12; rw [featCore_eq false true x score rgb sel hc]
-  exact txCore_ok false true x score rgb sel hwf ht1 ht2 (Or.inr (Or.inl rfl))
+  unfold featToBed12; rw [featCore_eq true true x score rgb sel hc]
+  exact txCore_ok true true x score rgb sel hwf ht1 ht2 (Or.inl rfl)
 
-/- T2, full statement (FALSE for the code as it is — F-C14a, see `chunk_mode_defect_witness`):
-     ∀ x, wf x → … → ∃ b, txToBed12 x score rgb sel false = some b ∧
-                          okBed12 (wantOf x score rgb sel false) (some b.str) = true
-   Proved: (a) `_partial`: the code as it is, whenever the coordinate origin of the export is 0 (no parent, a
-   whole-chromosome parent, or a chunk starting at 0); (b) `_repaired`: the code with `self.start` replaced by
-   `self.chunk_relative_start` in the block-start line, for EVERY window. -/
-
-/-- T2a (transcripts, chunk-relative mode, code as it is, origin 0) -/
-theorem tx_chunk_mode_partial (x : Iv) (score : Nat) (rgb : Nat × Nat × Nat) (sel : NameSel)
-    (hwf : wf x = true) (ht1 : '\t' ∉ optStr x.seqName) (ht2 : '\t' ∉ optStr (selName x sel))
-    (h0 : offOf false x.par = 0) :
-    ∃ b, txToBed12 x score rgb sel false = some b ∧
-         okBed12 (wantOf x score rgb sel false) (some b.str) = true :=
-  txCore_ok false false x score rgb sel hwf ht1 ht2 (Or.inr (Or.inr h0))
-
-/-- T2a (features) -/
-theorem feat_chunk_mode_partial (x : Iv) (score : Nat) (rgb : Nat × Nat × Nat) (sel : NameSel)
-    (hwf : wf x = true) (hc : x.cds = none) (ht1 : '\t' ∉ optStr x.seqName) (ht2 : '\t' ∉ optStr (selName x sel))
-    (h0 : offOf false x.par = 0) :
-    ∃ b, featToBed12 x score rgb sel false = some b ∧
-         okBed12 (wantOf x score rgb sel false) (some b.str) = true := by
-  unfold featToBed12; rw [featCore_eq false false x score rgb sel hc]
-  exact txCore_ok false false x score rgb sel hwf ht1 ht2 (Or.inr (Or.inr h0))
-
-/-- T2b (transcripts, chunk-relative mode, repaired code): every window containing the interval. -/
-theorem tx_chunk_mode_repaired (x : Iv) (score : Nat) (rgb : Nat × Nat × Nat) (sel : NameSel)
+/-- T2 (transcripts, chunk-relative mode): every chunk window containing the interval. -/
+theorem tx_chunk_mode (x : Iv) (score : Nat) (rgb : Nat × Nat × Nat) (sel : NameSel)
     (hwf : wf x = true) (ht1 : '\t' ∉ optStr x.seqName) (ht2 : '\t' ∉ optStr (selName x sel)) :
-    ∃ b, txToBed12Repaired x score rgb sel false = some b ∧
+    ∃ b, txToBed12 x score rgb sel false = some b ∧
          okBed12 (wantOf x score rgb sel false) (some b.str) = true :=
   txCore_ok true false x score rgb sel hwf ht1 ht2 (Or.inl rfl)
 
-/-- T2b (features) -/
-theorem feat_chunk_mode_repaired (x : Iv) (score : Nat) (rgb : Nat × Nat × Nat) (sel : NameSel)
+/-- T2 (features, chunk-relative mode) -/
+theorem feat_chunk_mode (x : Iv) (score : Nat) (rgb : Nat × Nat × Nat) (sel : NameSel)
     (hwf : wf x = true) (hc : x.cds = none) (ht1 : '\t' ∉ optStr x.seqName) (ht2 : '\t' ∉ optStr (selName x sel)) :
-    ∃ b, featToBed12Repaired x score rgb sel false = some b ∧
+    ∃ b, featToBed12 x score rgb sel false = some b ∧
          okBed12 (wantOf x score rgb sel false) (some b.str) = true := by
-  unfold featToBed12Repaired; rw [featCore_eq true false x score rgb sel hc]
+  unfold featToBed12; rw [featCore_eq true false x score rgb sel hc]
   exact txCore_ok true false x score rgb sel hwf ht1 ht2 (Or.inl rfl)
 
-/-- the repair does not change chromosome-mode output -/
+/-- the code before the repair of F-C14a was right only when the coordinate origin of the export is 0 -/
+theorem tx_chunk_mode_before_repair_partial (x : Iv) (score : Nat) (rgb : Nat × Nat × Nat) (sel : NameSel)
+    (hwf : wf x = true) (ht1 : '\t' ∉ optStr x.seqName) (ht2 : '\t' ∉ optStr (selName x sel))
+    (h0 : offOf false x.par = 0) :
+    ∃ b, txToBed12Before x score rgb sel false = some b ∧
+         okBed12 (wantOf x score rgb sel false) (some b.str) = true :=
+  txCore_ok false false x score rgb sel hwf ht1 ht2 (Or.inr (Or.inr h0))
+
+/-- the repair did not change chromosome-mode output -/
 theorem repair_keeps_chromosome_mode (x : Iv) (score : Nat) (rgb : Nat × Nat × Nat) (sel : NameSel) :
-    txToBed12Repaired x score rgb sel true = txToBed12 x score rgb sel true := by
-  unfold txToBed12Repaired txToBed12 txCore
+    txToBed12 x score rgb sel true = txToBed12Before x score rgb sel true := by
+  unfold txToBed12 txToBed12Before txCore
   cases x.exons <;> rfl
 
 /-- T3: the constructor's checks are what puts an interval into the domain (they give `thick ⊆ [start,end]`). -/
@@ -114,11 +98,11 @@ theorem constructor_gives_domain (exons : List Blk) (st : Strand) (cds : Option 
 /-- the interval of F-C14a: exons [20,30),[40,60) on the chunk [10,90) -/
 def ivF : Iv := ⟨[(20, 30), (40, 60)], .plus, none, some ['c'], some ['t'], none, .chunk 10 90⟩
 
-/-- T4 (negative witness, F-C14a): in chunk-relative mode the code as it is writes block starts −10,10
-    (taken against the chromosome start), which no BED reader accepts. -/
-theorem chunk_mode_defect_witness :
-    (txToBed12 ivF 0 (0, 0, 0) .symbol false).map (·.blockStarts) = some [-10, 10]
-    ∧ okBed12 (wantOf ivF 0 (0, 0, 0) .symbol false) ((txToBed12 ivF 0 (0, 0, 0) .symbol false).map (·.str)) = false := by
+/-- T4 (regression witness, F-C14a): in chunk-relative mode the code BEFORE the repair wrote block starts
+    −10,10 (taken against the chromosome start), which no BED reader accepts. -/
+theorem chunk_mode_defect_witness_before_repair :
+    (txToBed12Before ivF 0 (0, 0, 0) .symbol false).map (·.blockStarts) = some [-10, 10]
+    ∧ okBed12 (wantOf ivF 0 (0, 0, 0) .symbol false) ((txToBed12Before ivF 0 (0, 0, 0) .symbol false).map (·.str)) = false := by
   decide
 
 -- non-vacuity: ivF is in the domain, and so is a coding minus-strand transcript with a 0-bp gap on a window
@@ -127,7 +111,7 @@ example : wf ⟨[(3, 5), (5, 9), (12, 14)], .minus, some [(4, 5), (5, 9), (12, 1
               .chunk 2 20⟩ = true := by decide
 example : '\t' ∉ optStr ivF.seqName ∧ '\t' ∉ optStr (selName ivF .symbol) := by decide
 example : offOf false (Par.chunk 0 50) = 0 := rfl
-example : (txToBed12Repaired ivF 0 (0, 0, 0) .symbol false).map (·.blockStarts) = some [0, 20] := by decide
+example : (txToBed12 ivF 0 (0, 0, 0) .symbol false).map (·.blockStarts) = some [0, 20] := by decide
 example : (txToBed12 ivF 7 (255, 0, 9) .symbol true).map (·.str)
     = some "c\t20\t60\tt\t7\t+\t0\t0\t255,0,9\t2\t10,20\t0,20".toList := by decide
 
